@@ -78,8 +78,20 @@ pub fn scenario(g: &mut Gen) -> Scenario {
         let call = if g.rng.chance(1, 2) { Node::Include(lit_s(&p), vec![("x".into(), var("i"))]) } else { Node::Render(lit_s(&p), RForm::Plain, vec![("x".into(), var("i"))]) };
         main.push(Node::For { x: "i".into(), rng: RangeE::Counted(lit_i(1), lit_i(3)), limit: None, offset: None, rev: false, body: vec![text("("), call, text(")")], els: None });
     }
+    // the same include / render tag executed several times with a different name each time
+    let mut pnames: Vec<Value> = Vec::new();
+    if g.rng.chance(1, 2) && !avail.is_empty() {
+        let k = 2 + g.rng.below(2);
+        for _ in 0..k {
+            let n = if g.rng.chance(1, 8) { "missing".to_string() } else { g.rng.pick(&avail).clone() };
+            pnames.push(Value::scalar(n));
+        }
+        let call = if g.rng.chance(1, 2) { Node::Include(var("pn"), vec![]) } else { Node::Render(var("pn"), RForm::Plain, vec![]) };
+        main.push(Node::For { x: "pn".into(), rng: RangeE::Arr(var("pnames")), limit: None, offset: None, rev: false, body: vec![text("~"), call, text("^")], els: None });
+    }
     main.extend(tail());
     let mut data = g.data();
+    data.insert("pnames".into(), Value::Array(pnames));
     let dynamic = if avail.is_empty() { "missing".to_string() } else { g.rng.pick(&avail).clone() };
     data.insert("pname".into(), Value::scalar(dynamic));
     Scenario { main, partials, data }
